@@ -211,9 +211,15 @@ def run_history(case, st=None):
 def gen_broken(rng):
     n = rng.randrange(1, 7)
     members = [rng.choice(M) for _ in range(n)]
-    defect = rng.choice(["cycle", "cycle", "cycle", "no-rest", "two-rest", "no-first", "two-first", "self-loop", "none"])
-    at = rng.randrange(0, n); to = rng.randrange(0, at + 1)
-    return dict(kind="broken", members=[enc(x) for x in members], defect=defect, at=at, to=to, probe=enc(rng.choice(M + [Literal("absent")])))
+    kinds = ["cycle", "cycle", "cycle", "no-rest", "two-rest", "no-first", "two-first", "self-loop", "none"]
+    defects = []
+    for _ in range(rng.choice([1, 1, 2, 3])):
+        at = rng.randrange(0, n)
+        defects.append([rng.choice(kinds), at, rng.randrange(0, at + 1)])
+    if rng.random() < 0.25:  # a cycle made only of cells that lack rdf:first
+        at = rng.randrange(0, n); to = rng.randrange(0, at + 1)
+        defects = [["cycle", at, to]] + [["no-first", j, 0] for j in range(to, at + 1)]
+    return dict(kind="broken", members=[enc(x) for x in members], defects=defects, probe=enc(rng.choice(M + [Literal("absent")])))
 
 
 def run_broken(case, st=None):
@@ -221,21 +227,24 @@ def run_broken(case, st=None):
     g = Graph()
     members = [dec(x) for x in case["members"]]
     cells = [BNode("c%d" % i) for i in range(len(members))]
-    at, to, d = case["at"], case["to"], case["defect"]
+    defects = case.get("defects") or [[case["defect"], case["at"], case["to"]]]
+    d = "+".join(sorted({x[0] for x in defects}))
+    at, to = defects[0][1], defects[0][2]
+    def has(kind, i): return any(x[0] == kind and x[1] == i for x in defects)
     for i, (c, m) in enumerate(zip(cells, members)):
         nxt = cells[i + 1] if i + 1 < len(cells) else RDF.nil
-        if not (d == "no-first" and i == at):
+        if not has("no-first", i):
             g.add((c, RDF.first, m))
-        if d == "two-first" and i == at:
+        if has("two-first", i):
             g.add((c, RDF.first, Literal("second")))
-        if d in ("cycle",) and i == at:
-            nxt = cells[to]
-        if d == "self-loop" and i == at:
+        for x in defects:
+            if x[0] == "cycle" and x[1] == i: nxt = cells[x[2]]
+        if has("self-loop", i):
             nxt = c
-        if not (d == "no-rest" and i == at):
+        if not has("no-rest", i):
             g.add((c, RDF.rest, nxt))
-        if d == "two-rest" and i == at:
-            g.add((c, RDF.rest, cells[to]))
+        for x in defects:
+            if x[0] == "two-rest" and x[1] == i: g.add((c, RDF.rest, cells[x[2]]))
     col = Collection(g, cells[0])
     probe = dec(case["probe"])
     reads = [("len", lambda: len(col)), ("iter", lambda: list(col)), ("in", lambda: probe in col), ("index", lambda: col.index(probe)),
